@@ -57,13 +57,41 @@ def pick_charges(sym, indices, mode):
     raise ValueError(mode)
 
 
-def arrays_over(sym, indices, charges="all", sparsity="le1", orders=("sorted",), **kw):
-    """all (charge, stored sectors in order) variants over fixed index descriptors"""
+def phase_patterns(stored, mode):
+    """subsets of the stored sectors carrying a pending -1"""
+    stored = tuple(sorted(stored))
+    n = len(stored)
+    if mode == "none" or n == 0:
+        return [()]
+    if mode == "all":
+        return [sub for r in range(n + 1) for sub in itertools.combinations(stored, r)]
+    if mode == "probe":
+        out = [(), stored]
+        if n > 1:
+            out.append(stored[:1])
+            out.append(stored[1::2])
+        return list(dict.fromkeys(out))
+    if mode == "probe0":
+        return list(dict.fromkeys([(), stored[::2]]))
+    if mode == "one":
+        return [stored[::2]]
+    raise ValueError(mode)
+
+
+def arrays_over(sym, indices, charges="all", sparsity="le1", orders=("sorted",), phases="none", label=None, **kw):
+    """all (charge, stored sectors in order[, pending signs]) variants over fixed index descriptors.
+    ``label`` is used as oddpos when the charge is odd (fermionic descriptors only)."""
+    ferm = kw.get("ferm", False)
     for charge in pick_charges(sym, indices, charges):
         valid = G.valid_sectors(sym, tables_of(indices), duals_of(indices), charge)
+        odd = G.parity(sym, charge) == 1
         for stored in sparsity_patterns(valid, sparsity):
             for ordered in order_variants(stored, orders):
-                yield arrd(sym, indices, charge, ordered, **kw)
+                if not ferm:
+                    yield arrd(sym, indices, charge, ordered, **kw)
+                    continue
+                for ph in phase_patterns(stored, phases):
+                    yield arrd(sym, indices, charge, ordered, phases=ph, oddpos=(label if odd else None), **kw)
 
 
 def index_tuples(sym, n, menu, size="a", duals="all", axis0=0):
